@@ -5,6 +5,7 @@ import (
 	"go/constant"
 	"go/token"
 	"go/types"
+	"regexp"
 	"sort"
 	"strings"
 
@@ -278,6 +279,31 @@ func (bc *boundsCtx) addCmp(f *factSet, op token.Token, X, Y ssa.Value) {
 		}
 	}
 	if s, ok := constString(X); ok && s == "" {
+		bc.addCmp(f, op, Y, X)
+		return
+	}
+	// m := R.FindStringSubmatch(s) with R a package-level pattern constant: m != nil means a match, and a
+	// match has exactly 1 + NumSubexp(R) elements
+	if isNilConst(Y) && op == token.NEQ {
+		if call, ok := X.(*ssa.Call); ok {
+			if nm := calleeName(&call.Call); (nm == "(*regexp.Regexp).FindStringSubmatch" || nm == "(*regexp.Regexp).FindSubmatch") && len(call.Call.Args) >= 1 {
+				if ld, ok := call.Call.Args[0].(*ssa.UnOp); ok {
+					if g, ok := ld.X.(*ssa.Global); ok && g.Pkg != nil {
+						if pg, ok := patternGlobals(bc.p, Rel(g.Pkg.Pkg.Path()))[g.Name()]; ok {
+							if re, err := regexp.Compile(pg.Pat); err == nil {
+								ln, lo := bc.lenTerm(X)
+								k := int64(1 + re.NumSubexp())
+								f.le(ln, lo, "", 0, k)
+								f.le("", 0, ln, lo, -k)
+							}
+						}
+					}
+				}
+			}
+		}
+		return
+	}
+	if isNilConst(X) && !isNilConst(Y) {
 		bc.addCmp(f, op, Y, X)
 		return
 	}
